@@ -11,7 +11,8 @@ import subprocess
 import sys
 import xml.etree.ElementTree as ET
 
-EVAL = "/tmp/mut/eval"
+EVAL = os.environ.get("EVAL_WORKTREE", "/tmp/mut/eval")  # scratch worktree of /repo
+VROOT = os.environ.get("VERIF_ROOT", "/verif")  # which copy of the machinery runs the checks
 PY = "/venv/bin/python"
 
 
@@ -32,7 +33,7 @@ def reset_eval():
 
 
 def baseline_ok(root):
-    xml = "/tmp/mut/eval_junit.xml"
+    xml = EVAL.rstrip("/") + "_junit.xml"
     sh(f"cd {root} && {PY} -m pytest -q -p no:cacheprovider --timeout=900 --continue-on-collection-errors --junitxml={xml}",
        env={"PYTHONPATH": f"{root}/src", "MPLBACKEND": "Agg"}, timeout=1800)
     base = json.load(open("/root/.vp/BASELINE.json"))["stable_pass"]
@@ -88,11 +89,11 @@ def main():
         if not a.skip_tests:
             r["baseline_broken"] = baseline_ok(EVAL)
         for chk in [prop] + [c for c in a.extra_checks.split(",") if c]:
-            crc, cout = sh(f"./check {chk} --tier quick", cwd="/verif", env={"PYOMA2_REPO": EVAL}, timeout=3600)
+            crc, cout = sh(f"./check {chk} --tier quick", cwd=VROOT, env={"PYOMA2_REPO": EVAL}, timeout=3600)
             lines = [l for l in cout.splitlines() if l.startswith("VIOLATION") or "-> exit" in l or l.startswith("  ")]
             r[f"check_{chk}_rc"] = crc
             r[f"check_{chk}_out"] = lines[-4:]
-        sh(f"{PY} harness/translate_hc.py --write; {PY} harness/translate_wiring.py --write", cwd="/verif")  # restore the generated files to /repo's
+        sh(f"{PY} harness/translate_hc.py --write; {PY} harness/translate_wiring.py --write", cwd=VROOT)  # restore the generated files to /repo's
         res[key] = r
         json.dump(res, open(a.out, "w"), indent=1)
         print(key, "demo", rc0, "->", rc1, "| baseline broken:", r.get("baseline_broken"), "| check rc", r.get(f"check_{prop}_rc"), flush=True)
